@@ -18,6 +18,7 @@ import DispensoVerif.Model.ForEach
 import DispensoVerif.Model.PoolAlloc
 import DispensoVerif.Model.CpuSet
 import DispensoVerif.Model.Graph
+import Driver.Plugins
 
 /-! Handlers of the dvdriver line protocol. Core Lean only. -/
 namespace Driver
@@ -38,6 +39,7 @@ inductive Sess where
   | arena (B : Nat) (s : Conc.State (Arena.proto B))
   | palloc (s : Conc.State PoolAlloc.proto)
   | distrw (N : Nat) (s : Conc.State (DistRWLock.proto N))
+  | plug (name : String)
 
 structure St where
   sess : Sess := .none
@@ -49,6 +51,7 @@ structure St where
   palloc : PoolAlloc.Seq.St := PoolAlloc.Seq.St.init 1
   cpuset : CpuSet.Set := []
   graph : Graph.G := Graph.G.init false
+  plugs : List (String × Plug) := plugins
 
 def St.init : St := {}
 
@@ -456,6 +459,7 @@ def traceLine (sess : Sess) (toks : List String) : Sess × String :=
   match sess with
   | .none => (.none, "no-session")
   | .failed => (.failed, "skip")
+  | .plug n => (.plug n, "no-session")
   | .event s =>
     match Trace.acceptLine Event.binding s toks with
     | .ok s' => (.event s', "ok")
@@ -497,6 +501,14 @@ def traceLine (sess : Sess) (toks : List String) : Sess × String :=
     | .ok s' => (.asyncreq s', "ok")
     | .error e => (.failed, "MISMATCH " ++ e)
 
+/-- forward a request to the plug-in `name` and store its new state -/
+def plugStep (st : St) (name : String) (toks : List String) : St × String :=
+  match st.plugs.find? (·.1 == name) with
+  | none => (st, "bad-op")
+  | some (_, p) =>
+    let (p', r) := p.run toks
+    ({ st with plugs := st.plugs.map fun q => if q.1 == name then (name, p') else q }, r)
+
 def dispatch (st : St) : List String → St × String
   | "chunk" :: rest => (st, chunkH rest)
   | "bits" :: rest => (st, bitsH rest)
@@ -512,11 +524,26 @@ def dispatch (st : St) : List String → St × String
   | "graph" :: rest => graphH st rest
   | "parforplan" :: rest => (st, parforPlanH rest)
   | "trace" :: "begin" :: rest =>
-    let (s, r) := traceBegin rest
-    ({ st with sess := s }, r)
+    match rest with
+    | name :: params =>
+      match st.plugs.find? (·.1 == name) with
+      | some _ =>
+        let (st', r) := plugStep st name ("begin" :: params)
+        ({ st' with sess := .plug name }, r)
+      | none =>
+        let (s, r) := traceBegin rest
+        ({ st with sess := s }, r)
+    | [] => ({ st with sess := .failed }, "unknown-protocol")
   | "T" :: rest =>
-    let (s, r) := traceLine st.sess rest
-    ({ st with sess := s }, r)
+    match st.sess with
+    | .plug name => plugStep st name ("T" :: rest)
+    | _ =>
+      let (s, r) := traceLine st.sess rest
+      ({ st with sess := s }, r)
+  | name :: rest =>
+    match st.plugs.find? (·.1 == name) with
+    | some _ => plugStep st name rest
+    | none => (st, "bad-op")
   | _ => (st, "bad-op")
 
 end Driver
